@@ -42,7 +42,32 @@ type stBehaviour struct {
 
 var stSeq int64
 
-func posKey(prefix string, p int) []byte { return []byte(fmt.Sprintf("%sk%c", prefix, '0'+p)) }
+// positions map to byte keys in the same order; the table contains keys that are prefixes of one
+// another and the bytes 0x00 / 0xff next to a shared prefix, where bound arithmetic goes wrong first
+var posNames = []string{"a", "a\x00", "a\x01", "ab", "b", "b\xff", "c", "c0", "d"}
+
+func posKey(prefix string, p int) []byte {
+	if p >= 1 && p <= len(posNames) {
+		return []byte(prefix + posNames[p-1])
+	}
+	if p <= 0 {
+		return []byte(prefix + "0") // below every key of the table
+	}
+	return []byte(prefix + "z") // above every key of the table
+}
+
+// keyPos is the inverse of posKey (0: not a key of the table)
+func keyPos(prefix string, key []byte) int {
+	for i, n := range posNames {
+		if string(key) == prefix+n {
+			return i + 1
+		}
+	}
+	if len(key) > 0 {
+		return int(key[len(key)-1] - '0')
+	}
+	return 0
+}
 
 // cmdStoreRun (C11) executes operation sequences generated from spec/Storage.tla directly on a
 // storage adapter (no backend) and records every result.
@@ -169,7 +194,7 @@ func cmdStoreRun(args []string) int {
 					err := it.Next(ctx)
 					ev := gate.Event{"e": "SIterNext", "id": s.ID, "res": gate.ErrClass(err), "k": 0, "v": "", "engine": en}
 					if err == nil {
-						ev["k"] = int(it.Key()[len(it.Key())-1] - '0')
+						ev["k"] = keyPos(prefix, it.Key())
 						ev["v"] = string(it.Val())
 						if ev["k"] != s.K || ev["v"] != s.V {
 							mismatch = true
@@ -191,7 +216,7 @@ func cmdStoreRun(args []string) int {
 							res = "err"
 							break
 						}
-						items = append(items, []interface{}{int(it.Key()[len(it.Key())-1] - '0'), string(it.Val())})
+						items = append(items, []interface{}{keyPos(prefix, it.Key()), string(it.Val())})
 					}
 					emit(gate.Event{"e": "SIterDrain", "id": s.ID, "items": items, "res": res, "engine": en})
 				case "SDelCur":
